@@ -2,6 +2,7 @@ SPECIFICATION Spec
 CONSTANT Thread = {t1, t2, t3}
 CONSTANT MaxOps = 2
 CONSTANT AtomicId = TRUE
+CONSTANT StackScratch = TRUE
 CONSTANT OwnedDrop = TRUE
 INVARIANT NonInterference
 INVARIANT NamesUnique
